@@ -444,7 +444,7 @@ def describe(tier):
     return {
         "alphabet": "base programs: every accepted 1- and 2-statement sequence of C02's core alphabet (no ORG) with every label binding, " +
                     ("every 3-statement sequence" if tier == "thorough" else "3-statement sequences over a 9-template slice") +
-                    ", README example, cross-reference program, interacting-PCR program, and families of two and three mutually dependent label,PCR "
+                    ", README example, cross-reference program, interacting-PCR program, a program of constants written as 16 bits whose value fits 8 (used as terms of constant expressions; the appended EQU aliases every constant as well as a label), and families of two and three mutually dependent label,PCR "
                     "statements (every reference pattern over 5-6 labels x gaps around the 8/16-bit limit) with PC-relative / branch statements appended; transformations: origin shifts {} from $2000 and shifts -1 +1 +$4F from origin $0001 (programs without absolute label references, wholly below $100, plus every 1-3 statement program over 12 relative-reference templates label / label+n / label-n where label-n may fall below 0); 4 label "
                     "1-2 statement programs over label / label+n templates based at $FFD0 and moved up byte by byte until they touch $FFFF; a two-region program (code at $0E00+D, variables after a second ORG at 0+D / 1+D / $10+D) under 5 shifts; bijections onto names incl. SU XS PCX DPY a1 PCRL CCX; formats {}; every non-ORG statement template of C02 appended".format(SHIFTS, FORMATS),
         "bound": "one transformation per run (the menu is applied exhaustively to every base program)",
